@@ -49,8 +49,11 @@ def one_file(cases, site_fn, exprs_fn, flags, analyze, clean=False, needs=(), he
     return out, ctx
 
 
-def run_batched(cases, judge, label=None, key=None, sig=None):
-    """judge(list_of_cases) -> (verdicts, ctx). Returns a task-result dict."""
+def run_batched(cases, judge, label=None, key=None, sig=None, strict_batch=False):
+    """judge(list_of_cases) -> (verdicts, ctx). Returns a task-result dict.
+    strict_batch: a site that is wrong only when the other sites of the batch are in the same file is a violation as well (the
+    file with all its sites is a legitimate test program; something computed for one site leaked into another). Only for
+    checks whose sites cannot influence each other through the harness itself."""
     out = {"n": 0, "nontrivial": [], "outcomes": {}, "violations": [], "samples": []}
     verdicts, ctx = judge(cases)
     for c, v in zip(cases, verdicts):
@@ -60,6 +63,12 @@ def run_batched(cases, judge, label=None, key=None, sig=None):
             v = sv[0]
             if v is None:
                 out["outcomes"]["ok-alone-only"] = out["outcomes"].get("ok-alone-only", 0) + 1
+                if strict_batch:
+                    i = cases.index(c)
+                    bv = verdicts[i]
+                    out["violations"].append({"case": {"batch": cases, "index": i}, "what": "only-next-to-other-sites:" + bv[0],
+                                              "detail": "site %d is right in a file of its own but not in this file with %d sites: %s\n--- site ---\n%s" % (
+                                                  i, len(cases), bv[1][:600], repr(c)[:300])})
         if v is not None:
             viol = {"case": c, "what": v[0], "detail": v[1]}
             if sig:
@@ -76,6 +85,12 @@ def run_batched(cases, judge, label=None, key=None, sig=None):
 
 
 def replay(case, judge, sig=None):
+    if "batch" in case:
+        vs, ctx = judge(case["batch"])
+        bv = vs[case["index"]]
+        if bv is None:
+            return []
+        return [{"case": case, "what": "only-next-to-other-sites:" + bv[0], "detail": bv[1][:600]}]
     v, ctx = judge([case])
     if v[0] is None:
         return []
